@@ -20,6 +20,7 @@ type gg struct {
 	uniq     string // unique suffix for declared names
 	n        int
 	mlBlock  bool // allow multi-line /* */ comments inside indented blocks (known go/printer non-idempotence)
+	plain    bool // no comment anywhere (a file without comments takes other paths through the formatters)
 	features map[string]bool
 }
 
@@ -36,6 +37,16 @@ func (g *gg) ws() string {
 		g.feat("odd-spacing")
 	}
 	return s
+}
+
+// wsl: like ws, but sometimes a line break; only used after tokens that cannot end a statement (operators, opening
+// brackets, commas), where Go inserts no semicolon
+func (g *gg) wsl() string {
+	if g.int("wsl", 0, 5) != 0 {
+		return g.ws()
+	}
+	g.feat("line-break-inside-expression")
+	return g.pick("wslnl", "\n", "\n\t", " \n  ", "\n\n\t", "\t\n")
 }
 
 // sp: mandatory blank
@@ -98,19 +109,19 @@ func (g *gg) expr(depth int) string {
 	case 2, 3:
 		op := g.pick("binop", "+", "-", "*", "/", "%", "==", "!=", "<", "<=", "&&", "||", "&", "|", "<<", "&^")
 		l, r := g.operand(depth-1), g.operand(depth-1)
-		return l + g.ws() + op + g.ws() + r
+		return l + g.ws() + op + g.wsl() + r
 	case 4:
 		fn := g.pick("fn", "f", "g", "pkg.Call", "len", "append", "x.M", "fmt.Sprintf")
 		n := g.int("nargs", 0, 3)
 		var args []string
 		for i := 0; i < n; i++ {
-			args = append(args, g.ws()+g.expr(depth-1)+g.ws())
+			args = append(args, g.wsl()+g.expr(depth-1)+g.ws())
 		}
 		return fn + g.ws() + "(" + strings.Join(args, ",") + ")"
 	case 5:
 		op := g.pick("unop", "-", "!", "^", "&", "*", "<-")
 		operand := g.pick("ident", ggIdents...)
-		return op + operand
+		return op + g.wsl() + operand
 	case 6:
 		g.feat("composite-literal")
 		switch g.int("complit", 0, 3) {
@@ -139,13 +150,13 @@ func (g *gg) expr(depth int) string {
 		g.feat("func-literal")
 		return "func(" + g.ws() + "p" + g.sp() + "int" + g.ws() + ")" + g.sp() + "int" + g.ws() + g.block(depth-1, true)
 	case 8:
-		return g.pick("ident", ggIdents...) + "[" + g.ws() + g.expr(depth-1) + g.ws() + "]"
+		return g.pick("ident", ggIdents...) + "[" + g.wsl() + g.expr(depth-1) + g.ws() + "]"
 	case 9:
 		return g.pick("ident", ggIdents...) + "." + g.pick("sel", "Field", "Name", "next")
 	case 10:
-		return g.pick("ident", ggIdents...) + ".(" + g.ws() + g.pick("asserted", "int", "*T", "error") + g.ws() + ")"
+		return g.pick("ident", ggIdents...) + ".(" + g.wsl() + g.pick("asserted", "int", "*T", "error") + g.ws() + ")"
 	default:
-		return g.pick("conv", "int", "string", "[]byte", "float64") + "(" + g.ws() + g.lit() + g.ws() + ")"
+		return g.pick("conv", "int", "string", "[]byte", "float64") + "(" + g.wsl() + g.lit() + g.ws() + ")"
 	}
 }
 
@@ -153,7 +164,7 @@ func (g *gg) expr(depth int) string {
 func (g *gg) operand(depth int) string {
 	if depth > 0 && g.int("parenop", 0, 3) == 0 {
 		op := g.pick("binop2", "+", "-", "*", "==", "&&", "|")
-		return "(" + g.ws() + g.lit() + g.ws() + op + g.ws() + g.lit() + g.ws() + ")"
+		return "(" + g.wsl() + g.lit() + g.ws() + op + g.wsl() + g.lit() + g.ws() + ")"
 	}
 	if depth > 0 && g.int("callop", 0, 2) == 0 {
 		return g.pick("fn2", "f", "len", "x.M") + "(" + g.lit() + ")"
@@ -162,6 +173,12 @@ func (g *gg) operand(depth int) string {
 }
 
 func (g *gg) comment(inBlock bool) string {
+	if g.plain {
+		if inBlock {
+			return "_" + g.ws() + "=" + g.ws() + "0"
+		}
+		return "var" + g.sp() + g.name("nc") + g.sp() + "int"
+	}
 	switch g.int("cmtkind", 0, 6) {
 	case 0, 1, 2:
 		g.feat("line-comment")
@@ -192,15 +209,15 @@ func (g *gg) simpleStmt(depth int) string {
 	id := g.pick("ident", ggIdents...)
 	switch g.int("simple", 0, 9) {
 	case 0, 1:
-		return id + g.ws() + ":=" + g.ws() + g.expr(depth)
+		return id + g.ws() + ":=" + g.wsl() + g.expr(depth)
 	case 2:
-		return id + g.ws() + "=" + g.ws() + g.expr(depth)
+		return id + g.ws() + "=" + g.wsl() + g.expr(depth)
 	case 3:
 		return id + g.ws() + g.pick("incdec", "++", "--")
 	case 4:
-		return id + g.ws() + g.pick("opassign", "+=", "-=", "*=", "|=", "<<=") + g.ws() + g.expr(depth)
+		return id + g.ws() + g.pick("opassign", "+=", "-=", "*=", "|=", "<<=") + g.wsl() + g.expr(depth)
 	case 5:
-		return g.pick("fn", "f", "pkg.Do", "x.M") + "(" + g.ws() + g.expr(depth) + g.ws() + ")"
+		return g.pick("fn", "f", "pkg.Do", "x.M") + "(" + g.wsl() + g.expr(depth) + g.ws() + ")"
 	case 6:
 		return "a" + g.ws() + "," + g.ws() + "b" + g.ws() + "=" + g.ws() + "b" + g.ws() + "," + g.ws() + "a"
 	case 7:
@@ -275,6 +292,9 @@ func (g *gg) stmt(depth int) string {
 	case 12:
 		// trailing comment
 		g.feat("trailing-comment")
+		if g.plain {
+			return g.simpleStmt(0)
+		}
 		return g.simpleStmt(0) + g.sp() + "// " + g.pick("trail", "why", "see above", "x")
 	case 13:
 		g.feat("nested-block")
@@ -292,11 +312,11 @@ func (g *gg) stmt(depth int) string {
 func (g *gg) cond(depth int) string {
 	switch g.int("cond", 0, 3) {
 	case 0:
-		return g.pick("ident", ggIdents...) + g.ws() + g.pick("cmp", "==", "!=", "<", ">=") + g.ws() + g.lit()
+		return g.pick("ident", ggIdents...) + g.ws() + g.pick("cmp", "==", "!=", "<", ">=") + g.wsl() + g.lit()
 	case 1:
-		return "!" + g.pick("ident", ggIdents...)
+		return g.pick("condunop", "!", "!", "*") + g.wsl() + g.pick("ident", ggIdents...)
 	case 2:
-		return g.pick("ident", ggIdents...) + g.ws() + "!=" + g.ws() + "nil" + g.ws() + "&&" + g.ws() + "f(" + g.lit() + ")"
+		return g.pick("ident", ggIdents...) + g.ws() + "!=" + g.wsl() + "nil" + g.ws() + "&&" + g.wsl() + "f(" + g.wsl() + g.lit() + ")"
 	default:
 		return "ok"
 	}
@@ -355,7 +375,9 @@ func (g *gg) fieldList() string {
 		b.WriteString(g.nl())
 		switch g.int("fieldkind", 0, 5) {
 		case 0:
-			b.WriteString(g.comment(true) + g.nl())
+			if !g.plain {
+				b.WriteString(g.comment(true) + g.nl())
+			}
 			fallthrough
 		case 1, 2:
 			fmt.Fprintf(&b, "F%d%s%s", i, g.sp(), g.pick("ftype", "int", "string", "[]byte", "map[string]int", "*T", "func(int) error", "chan<- int", "[4]byte"))
@@ -363,7 +385,11 @@ func (g *gg) fieldList() string {
 			g.feat("struct-tag")
 			fmt.Fprintf(&b, "F%d%s%s%s%s", i, g.sp(), "string", g.sp(), g.pick("tag", "`json:\"a\"`", "`json:\"a,omitempty\"   yaml:\"b\"`", "\"quoted:\\\"x\\\"\""))
 		case 4:
-			fmt.Fprintf(&b, "F%d%s,%sG%d%sint%s// trailing", i, g.ws(), g.ws(), i, g.sp(), g.sp())
+			if g.plain {
+				fmt.Fprintf(&b, "F%d%s,%sG%d%sint", i, g.ws(), g.ws(), i, g.sp())
+			} else {
+				fmt.Fprintf(&b, "F%d%s,%sG%d%sint%s// trailing", i, g.ws(), g.ws(), i, g.sp(), g.sp())
+			}
 		default:
 			if i == 0 {
 				b.WriteString(g.pick("embedded", "Embedded", "*Embedded", "pkg.Type"))
@@ -379,7 +405,7 @@ func (g *gg) fieldList() string {
 // topDecl renders one top-level declaration; typ is the type the generator was invoked for.
 func (g *gg) topDecl(typ string) string {
 	var b strings.Builder
-	if g.int("doc", 0, 3) == 0 {
+	if !g.plain && g.int("doc", 0, 3) == 0 {
 		g.feat("doc-comment")
 		lines := g.int("doclines", 1, 3)
 		for i := 0; i < lines; i++ {
@@ -389,7 +415,7 @@ func (g *gg) topDecl(typ string) string {
 	switch g.int("top", 0, 11) {
 	case 0, 1, 2:
 		g.feat("func")
-		if g.int("directive", 0, 5) == 0 {
+		if !g.plain && g.int("directive", 0, 5) == 0 {
 			g.feat("go-directive")
 			b.WriteString("//go:noinline\n")
 		}
@@ -398,8 +424,9 @@ func (g *gg) topDecl(typ string) string {
 		case 0:
 			b.WriteString(g.block(g.int("depth", 0, 3), false))
 		case 1:
-			b.WriteString("int" + g.sp() + g.block(g.int("depth", 0, 3), true))
+			b.WriteString(g.pick("restype", "int", "int", "map["+g.wsl()+"string]int", "*"+g.wsl()+"T") + g.sp() + g.block(g.int("depth", 0, 3), true))
 		default:
+			// no line breaks here: gofumpt closes a multi-line result list with ",\n)", which adds a token
 			b.WriteString("(" + g.ws() + "int" + g.ws() + "," + g.ws() + "error" + g.ws() + ")" + g.ws() + "{" + g.nl() + "return" + g.sp() + "0" + g.ws() + "," + g.ws() + "nil" + g.nl() + "}")
 		}
 	case 3, 4:
